@@ -17,6 +17,7 @@ type executeUnit struct {
 	runner            risc.InstructionRunnerPc
 	bu                *btbBranchUnit
 	mmu               *memoryManagementUnit
+	storeID           int
 }
 
 func newExecuteUnit(bu *btbBranchUnit, mmu *memoryManagementUnit) *executeUnit {
@@ -89,6 +90,13 @@ func (eu *executeUnit) cycle(ctx *risc.Context, app risc.Application, inBus *com
 
 	addrs := runner.Runner.MemoryRead(ctx, 0)
 	if len(addrs) != 0 {
+		for _, addr := range addrs {
+			if ctx.PendingWriteMemoryIntention(addr - addr%l1DCacheLineSize) {
+				// A store to this line is still queued for write-back: wait for it
+				eu.remainingCycles = 1
+				return false, 0, false, nil
+			}
+		}
 		if m, exists := eu.mmu.getFromL1D(addrs); exists {
 			eu.memory = m
 			eu.pendingMemoryRead = true
@@ -122,7 +130,14 @@ func (eu *executeUnit) run(ctx *risc.Context, app risc.Application, outBus *comp
 		return false, 0, false, nil
 	}
 
+	if execution.MemoryChange {
+		eu.storeID++
+		for addr := range execution.MemoryChanges {
+			ctx.AddPendingWriteMemoryIntention(addr-addr%l1DCacheLineSize, eu.storeID)
+		}
+	}
 	outBus.Add(risc.ExecutionContext{
+		SequenceID:      int32(eu.storeID),
 		Execution:       execution,
 		InstructionType: eu.runner.Runner.InstructionType(),
 		WriteRegisters:  eu.runner.Runner.WriteRegisters(),
